@@ -48,6 +48,14 @@ type Contract struct {
 	Fresh         bool // result is a fresh object
 	Function      bool // deterministic, heap-independent: calls are abstracted as fn_<name>_<k>(args)
 	GhostSet      map[string]*CExpr // ghost updates performed by the callee: name -> new value
+	AtCall        []*AtCall         // assertions at call sites inside this function
+}
+
+// AtCall: "atcall <callee> <expr>": at every call of callee in this function expr must hold; the
+// call's arguments (receiver first) are a0, a1, ...
+type AtCall struct {
+	Callee string
+	Expr   *CExpr
 }
 
 type Ghost struct {
@@ -411,6 +419,19 @@ func parseContractFile(path string, extra ...string) (*ContractFile, error) {
 			continue
 		}
 		switch fields[0] {
+		case "atcall":
+			// atcall[Cxx] CALLEE EXPR
+			hdr := fields[0]
+			_ = hdr
+			if len(fields) < 3 {
+				return nil, fmt.Errorf("line %d: atcall CALLEE EXPR", ln)
+			}
+			rest := strings.TrimSpace(l[strings.Index(l, fields[1])+len(fields[1]):])
+			e, err := parseCExpr(rest)
+			if err != nil {
+				return nil, fmt.Errorf("line %d: atcall: %v", ln, err)
+			}
+			cur.AtCall = append(cur.AtCall, &AtCall{Callee: fields[1], Expr: &CExpr{Text: rest, ast: e, Line: ln, Props: cur.Props}})
 		case "ghostset":
 			// ghostset NAME EXPR: after a call the ghost NAME has value EXPR (old(NAME) = before the call)
 			if len(fields) < 3 {
@@ -631,6 +652,7 @@ type evalEnv struct {
 	oldGh   map[string]string
 	retType []types.Type
 	loop    *ssa.BasicBlock // loop head whose invariant is being evaluated (for loop variables)
+	adopt   bool            // evaluating a pool invariant at Get: ownedFresh adopts the reference
 }
 
 func (fx *FnExec) evalContract(e *CExpr, env *evalEnv) (string, error) {
@@ -976,6 +998,14 @@ func (fx *FnExec) evalField(base cval, name string, env *evalEnv) (cval, error) 
 		}
 		var t string
 		fx.withHeap(env.heap, func() { t = fx.load(pl) })
+		// a reference read from untouched initial memory existed before this activation
+		if env.bound == nil && initialHeapTerm(t) {
+			if inv := fx.refInv(ft, t); inv != "true" {
+				if base := selectIndexOf(t); base != "" {
+					fx.assume(implies("(< "+base+" "+fx.allocBase()+")", inv))
+				}
+			}
+		}
 		// an object whose reference never left this activation cannot be found in memory
 		if len(fx.private) > 0 && env.bound == nil {
 			switch ft.Underlying().(type) {
@@ -1381,6 +1411,22 @@ func (fx *FnExec) evalCallC(x *ast.CallExpr, env *evalEnv) (cval, error) {
 		})
 		return cval{S: r, Sort: "(Array Int " + fx.sortOf(st.Elem()) + ")"}, nil
 	}
+	if fn.Name == "ownedFresh" {
+		// ownedFresh(r): r is nil or an object owned exclusively by the pooled object. Where the
+		// invariant is assumed (pool Get) the object is numbered like an allocation of the getter;
+		// where it is checked (Put, New) it must be nil or created by that activation.
+		v, err := fx.evalC(x.Args[0], env)
+		if err != nil {
+			return cval{}, err
+		}
+		if env.adopt {
+			fx.allocBase()
+			t := "(or (= " + v.S + " 0) (= " + v.S + " (+ alloc_base " + fx.allocCount() + " 1)))"
+			fx.bumpAlloc()
+			return boolr(t)
+		}
+		return boolr("(or (= " + v.S + " 0) (> " + v.S + " " + fx.allocBase() + "))")
+	}
 	if fn.Name == "freshRef" {
 		v, err := fx.evalC(x.Args[0], env)
 		if err != nil {
@@ -1529,6 +1575,7 @@ func mergeContract(dst, grp *Contract) {
 	if grp.ArithChecked {
 		dst.ArithChecked = true
 	}
+	dst.AtCall = append(dst.AtCall, grp.AtCall...)
 	for k, v := range grp.GhostSet {
 		if dst.GhostSet == nil {
 			dst.GhostSet = map[string]*CExpr{}
